@@ -153,6 +153,10 @@ class World(object):
                     kw["encoding"] = enc
                 elif e.get("explicit_bom"):
                     kw["encoding"] = e["explicit_bom"]       # a BOM file read with an explicit encoding= (utf-8 or utf-8-sig)
+                elif self.reads % 3 == 2:
+                    # the BOM is looked for before, and independently of, any detection of the codec from the content:
+                    # switching that detection off (a legal option value) must not matter for a file that has one
+                    kw["autodetect_encoding"] = False
                 las = lasio.read(pathlib.Path(path) if ch == "Path" else path, **kw)
         self.objs.append(las)
         d, p = digest(las)
